@@ -56,8 +56,14 @@ class C01(Prop):
             "tag shapes none/empty value/empty tag/1..6 elements/15..55 tags; each base event is followed by 4..11 alterations "
             "(other content, tag value changed or dropped, kind, created_at, pubkey of another key, arbitrary pubkey text, valid signature "
             "of another message, valid signature under another key, single-bit flips of the decoded id/pubkey/sig and of the content, "
-            "single-bit flips of the hex text, upper-casing of hex letters, truncation); thorough adds the exhaustive sweep: every "
-            "Unicode scalar value once, 4096 per event content; a case is one event; non-trivial = distinct (alteration, event)")
+            "single-bit flips of the hex text, upper-casing of hex letters, truncation, a pubkey bit flipped or replaced by arbitrary text "
+            "(also 64 hex digits that are no curve point) with the id recomputed so that only the key check can refuse it); "
+            "created_at also 2^e+d (e in 53..62, |d|<=3, either sign) and its alteration to a neighbouring value above or below; a content "
+            "class of genuine U+FFFD and its neighbours; every fourth group is a sequence case: 2..5 events over one or two signed "
+            "events (the event itself, possibly repeated, alterations after which Verify returns early or with an error, arbitrary "
+            "alterations, in any order) verified one after the other in one process, each element judged as a single event is; "
+            "before every case the real Verify runs once on a fixed good event so that a case's observation depends on the case alone; thorough adds the exhaustive sweep: every "
+            "Unicode scalar value once, 4096 per event content; a case is one event or one sequence of events; non-trivial = distinct (alteration, event) resp. distinct sequence of them")
     trusted_base = COMMON_TRUSTED + [
         "crypto/sha256 and btcec BIP-340 (schnorr.ParsePubKey/ParseSignature/Verify/Sign) as oracles: H, PK, SG, V are Section "
         "variables of the model; the correspondence instantiates them by tables the harness computes directly",
@@ -83,6 +89,11 @@ class C01(Prop):
 
     # ---- printing
     def to_coq(self, I, c):
+        if c.get("seq"):
+            return "(Seq %s)" % clist(c["seq"], lambda x: self._obs(I, x), "obs")
+        return "(One %s)" % self._obs(I, c)
+
+    def _obs(self, I, c):
         e = c["e"]
 
         def s(h):
@@ -99,12 +110,18 @@ class C01(Prop):
 
     # ---- bookkeeping
     def nontrivial_key(self, c):
+        if c.get("seq"):
+            return json.dumps([[x["r"]["alt"], x["e"]] for x in c["seq"]], sort_keys=True)
         return json.dumps([c["r"]["alt"], c["e"]], sort_keys=True)
 
     def dedup_key(self, c):
+        if c.get("seq"):
+            return "seq:" + ",".join(x["r"]["alt"] for x in c["seq"])
         return c["r"]["alt"]
 
     def summarize(self, c):
+        if c.get("seq"):
+            return {"seq": [self.summarize(x) for x in c["seq"]]}
         r = dict(c["r"], content=_short(c["r"]["content"]), val=_short(c["r"].get("val", "")))
         e = dict(c["e"], content=_short(c["e"]["content"]))
         if len(json.dumps(r["tags"])) > 600:
@@ -116,6 +133,8 @@ class C01(Prop):
     def shrink(self, c):
         """Smaller recipes, the most aggressive first; at most ~50 per round (every candidate is
         re-run on the implementation and re-judged inside Coq)."""
+        if c.get("seq"):
+            return self._shrink_seq(c)
         r = c["r"]
         cands = []
 
@@ -186,13 +205,69 @@ class C01(Prop):
                         put(b"".join(ch[:x] + ch[x + 1:]).hex())
         return cands[:64]
 
+    def _shrink_seq(self, c):
+        """A sequence: one element alone (a single-event case), the sequence without one element,
+        then the recipes of the elements made smaller one at a time."""
+        seq = [{"r": x["r"]} for x in c["seq"]]
+        cands = []
+        for x in seq:
+            cands.append({"r": x["r"]})
+        if len(seq) > 2:
+            for i in range(len(seq)):
+                for j in range(i + 1, len(seq)):
+                    cands.append({"seq": [seq[i], seq[j]]})
+        if len(seq) > 1:
+            for i in range(len(seq)):
+                cands.append({"seq": seq[:i] + seq[i + 1:]})
+        per = max(4, 40 // max(len(seq), 1))
+        for i, x in enumerate(seq):
+            for y in self.shrink(x)[:per]:
+                cands.append({"seq": seq[:i] + [y] + seq[i + 1:]})
+        return cands[:100]
+
+    def _flat(self, cases):
+        for c in cases:
+            if c.get("seq"):
+                for x in c["seq"]:
+                    yield x
+            else:
+                yield c
+
     def distribution(self, cases):
+        d = self._distribution(list(self._flat(cases)))
+        seqs = [c["seq"] for c in cases if c.get("seq")]
+        d["single_event_cases"] = len(cases) - len(seqs)
+        d["sequence_cases"] = len(seqs)
+        d["sequence_events"] = sum(len(q) for q in seqs)
+        d["sequences_by_length"] = {}
+        for q in seqs:
+            d["sequences_by_length"][str(len(q))] = d["sequences_by_length"].get(str(len(q)), 0) + 1
+        # an unaltered signed event verified right after a verification that ended in an error / in false
+        d["sequences_good_event_after_verify_error"] = sum(
+            1 for q in seqs if any(a["res"] >= 2 and b["expect"] in (1, 2) for a, b in zip(q, q[1:])))
+        d["sequences_good_event_after_verify_false"] = sum(
+            1 for q in seqs if any(a["res"] == 0 and b["expect"] in (1, 2) for a, b in zip(q, q[1:])))
+        d["sequences_same_event_twice"] = sum(
+            1 for q in seqs if any(q[i]["e"] == q[j]["e"] for i in range(len(q)) for j in range(i + 1, len(q))))
+        return d
+
+    def _distribution(self, cases):
         d = {"base_events": 0, "alterations": 0, "sweep_events": 0, "by_alteration": {}, "by_content_class": {},
              "verify_true": 0, "verify_false": 0, "verify_error": 0, "verify_panic": 0,
              "expect_authentic": 0, "expect_not": 0, "expect_same_bytes_other_case": 0,
              "events_with_a_character_json_escapes_differently": 0, "events_with_c0_control": 0,
-             "events_with_4byte_utf8": 0, "events_not_utf8": 0, "serialize_not_canonical": 0}
+             "events_with_4byte_utf8": 0, "events_not_utf8": 0, "serialize_not_canonical": 0,
+             "events_with_u_fffd": 0, "events_created_at_beyond_2_53": 0, "events_created_at_negative": 0,
+             "verify_error_with_matching_id": 0}
         for c in cases:
+            if b"\xef\xbf\xbd" in _b(c["e"]["content"]) or any(b"\xef\xbf\xbd" in _b(v) for t in c["e"]["tags"] for v in t):
+                d["events_with_u_fffd"] += 1
+            if abs(c["e"]["ts"]) > 2 ** 53:
+                d["events_created_at_beyond_2_53"] += 1
+            if c["e"]["ts"] < 0:
+                d["events_created_at_negative"] += 1
+            if c["res"] == 2 and c.get("idb") is not None and c.get("idb") == c.get("hser"):
+                d["verify_error_with_matching_id"] += 1
             a = c["r"]["alt"]
             d["by_alteration"][a] = d["by_alteration"].get(a, 0) + 1
             if a == "none":
@@ -223,7 +298,7 @@ class C01(Prop):
 
     def extra_coverage(self, cases, tier):
         seen = set()
-        for c in cases:
+        for c in self._flat(cases):
             if c["r"].get("cls") == "sweep" and c["r"]["alt"] == "none":
                 try:
                     seen.update(_b(c["e"]["content"]).decode("utf-8"))
@@ -239,7 +314,7 @@ class C01(Prop):
 
     signatures = {
         # F3: Serialize goes through json.Marshal, which escapes < > & U+2028 U+2029
-        "F3_json_marshal_escaping": lambda c: c["r"]["alt"] in ("none", "case_id", "case_sig", "case_all", "txt_id", "txt_sig")
+        "F3_json_marshal_escaping": lambda c: not c.get("seq") and c["r"]["alt"] in ("none", "case_id", "case_sig", "case_all", "txt_id", "txt_sig")
         and any(x in s for s in _strings(c["e"]) for x in F3_BYTES),
     }
 
